@@ -79,6 +79,41 @@ Theorem C08_reject : forall items, Exists (fun it => bad_len it = true) items ->
 Proof. exact reject_std. Qed.
 Print Assumptions C08_reject.
 
+(* ... and so is the whole report that carries it: T0x0200.Parse of a 28-byte block followed by the
+   items fails with the length error *)
+Theorem C08_reject_0200 : forall r blk items, len blk = 28 ->
+  Exists (fun it => bad_len it = true) items ->
+  t0200_parse r (blk ++ flat_map tlv items) = Err E_LEN.
+Proof. exact reject_0200. Qed.
+Print Assumptions C08_reject_0200.
+
+(* ... and the whole batch: a 0x0704 upload one of whose reports carries such an item is rejected,
+   wherever that report sits (the reports `pre` in front of it parse, `post` is anything).  Lengths
+   < 65536 because count and item length are WORDs, as in C08_carriers_0704. *)
+Theorem C08_reject_0704 : forall r ty pre vs blk items post,
+  Forall2 (fun it v => t0200_parse fresh_0200 it = Ok v /\ len it < 65536) pre vs ->
+  len blk = 28 -> Exists (fun it => bad_len it = true) items ->
+  len (blk ++ flat_map tlv items) < 65536 ->
+  len (pre ++ (blk ++ flat_map tlv items) :: post) < 65536 ->
+  t0704_parse r (std_0704 ty (pre ++ (blk ++ flat_map tlv items) :: post)) = Err E_LEN.
+Proof. exact reject_0704. Qed.
+Print Assumptions C08_reject_0704.
+
+(* non-vacuity: a good report, then a report whose second item `31 00` has an impossible length
+   (0x31 needs exactly one byte), then anything: hypotheses hold and the batch is rejected *)
+Example C08_reject_0704_example :
+  let good := repeat 0 28 ++ tlv (1, [0; 0; 0; 7]) in
+  let items := [(48, [9]); (49, [])] in
+  Exists (fun it => bad_len it = true) items /\
+  (exists v, t0200_parse fresh_0200 good = Ok v /\ len good < 65536) /\
+  t0200_parse fresh_0200 (repeat 0 28 ++ flat_map tlv items) = Err E_LEN /\
+  t0704_parse fresh_0704 (std_0704 1 ([good] ++ (repeat 0 28 ++ flat_map tlv items) :: [[1; 2; 3]])) = Err E_LEN.
+Proof.
+  cbv zeta. split. right. left. reflexivity.
+  split. eexists. split. vm_compute. reflexivity. vm_compute. reflexivity.
+  split; vm_compute; reflexivity.
+Qed.
+
 (* the code's length table accepts exactly the lengths the standard lists, for every id *)
 Theorem C08_len_table : forall id n, contrast id n =
   match lookup id std_item_lens with Some ls => existsb (N.eqb n) ls | None => true end.
